@@ -398,6 +398,33 @@ func runC01(r *core.Run) {
 			}
 		}
 	}
+	// an opaque colour decoded right after a translucent one (alpha a hair below the maximum, in the
+	// middle, tiny): nothing of the previous call's alpha may carry over into the next
+	{
+		var n int64
+		rg := core.NewRNG(r.Seed, "C01", "after-translucent")
+		for _, s := range libSpaces {
+			for i := 0; i < 4000; i++ {
+				a := []uint16{0xFF40, 0xFFFE, 0xFF00, 0x8000, 0x0101, 1, uint16(rg.Intn(65535)), uint16(0xFF00 + rg.Intn(255))}[i%8]
+				pre := uint16(rg.Intn(int(a) + 1))
+				// two translucent colours in a row (the first with quite another alpha), then the opaque one
+				_, _ = s.FromEncoded(color.NRGBA64{R: 9, G: 99, B: 999, A: []uint16{0x8000, 0x0101, 0x4000, 0xFE00, 0x00FF}[i%5]})
+				if i%2 == 0 {
+					_, _ = s.FromEncoded(color.RGBA64{R: pre, G: pre / 2, B: 0, A: a})
+				} else {
+					_, _ = s.FromEncoded(color.NRGBA64{R: uint16(rg.Intn(65536)), G: 77, B: 65535, A: a})
+				}
+				cc := c01CarrierCase{Space: s.Name, Type: []string{"color.RGBA64", "color.Gray16", "color.YCbCr", "*color.NRGBA"}[i%4], V: [4]uint16{uint16(rg.Intn(65536)), uint16(rg.Intn(65536)), uint16(rg.Intn(65536)), 0}}
+				n++
+				if bad, msg := c01Carrier(s, cc); bad {
+					r.Violate("carrier", fmt.Sprintf("%s/ColorFromEncodedColor/after-translucent", s.Name), msg+fmt.Sprintf(" (decoded right after a colour with alpha %#04x)", a), cc)
+					break
+				}
+			}
+		}
+		r.AddEvals(n)
+		r.NTCount(n)
+	}
 	// every carrier type: the decoded value is a function of the 16-bit components the colour
 	// reports through RGBA(), whatever its concrete type (YCbCr, CMYK, NYCbCrA, Alpha16, a caller's
 	// own type, pointers to the standard types)
